@@ -129,6 +129,14 @@ func (fr *frame) callStatic(fn *ssa.Function, args []Val, argTypes []types.Type,
 	if ik := instKey(fn); ik != "" {
 		if ict := vc.eng.specs.contracts[ik]; ict != nil {
 			ct, key = ict, ik
+		} else {
+			// pattern contracts: "<normalised key>@~<substring of the type arguments>"
+			base := fnKey(fn) + "@~"
+			for k, pc := range vc.eng.specs.contracts {
+				if strings.HasPrefix(k, base) && strings.Contains(ik[len(fnKey(fn))+1:], k[len(base):]) {
+					ct, key = pc, k
+				}
+			}
 		}
 	}
 	if ct == nil {
@@ -197,7 +205,7 @@ func (vc *VC) onStack(fn *ssa.Function) bool {
 }
 
 func (vc *VC) contractApplies(ct *Contract) bool {
-	if ct.NoInline || ct.PureVerdict != "" {
+	if ct.NoInline || ct.PureVerdict != "" || ct.PureResult != "" {
 		return true
 	}
 	for _, cl := range ct.Requires {
@@ -404,6 +412,10 @@ func (fr *frame) applyContract(ct *Contract, key string, sig *types.Signature, a
 		if _, ok := vc.eng.specs.ghostSort[sd.Name]; ok {
 			vc.ghostSet(st, sd.Name, te2.term(sd.E).t)
 		}
+	}
+	if ct.PureResult != "" && len(rvals) > 0 {
+		hasRecv := sig.Recv() != nil && len(args) == sig.Params().Len()+1
+		vc.assume(alive, "(= "+rvals[0].t+" "+vc.namedTerm(ct.PureResult, sig, args, hasRecv)+")")
 	}
 	if ct.PureVerdict != "" {
 		if ei := errResultIndex(sig); ei >= 0 && ei < len(rvals) {
